@@ -3,11 +3,16 @@
 a scheduled event of the simulation."""
 import sys
 
+T0 = 4.0e9
+
 
 class VirtualClock:
     def __init__(self, plan=None, log=None):
         plan = plan or {}
-        self.t = float(plan.get("t0", 1000.0))
+        # virtual "now" starts far beyond the real clock (year ~2096): a time captured from the
+        # real clock (import time, a stale origin) is then always visibly in the virtual past
+        self.t0 = float(plan.get("t0", T0))
+        self.t = self.t0
         self.steps = list(plan.get("steps", ()))
         self.tail = float(plan.get("tail", 0.0))
         self.expire = plan.get("expire_at_read")
@@ -27,7 +32,7 @@ class VirtualClock:
         i = self.n
         if self.expire is not None:
             if i >= self.expire:
-                self.t = max(self.t, 1e9)
+                self.t = max(self.t, self.t0 + 1e9)
         else:
             self.t += self.steps[i] if i < len(self.steps) else self.tail
         self.n += 1
